@@ -14,6 +14,7 @@ LEVEL_TEXT = (
     "validator`, the staker closure writes `stake` only (accrued rewards untouched) and no bank call is reachable from "
     "slash; (R4) when the slashed total is zero every staker's entry is removed and the staker set cleared. NOT "
     "decided: exactness of the (1-p) scaling and rounding of each amount."
+    " Every non-Err result of the Slash arm is dominated by the percentage guard and a successful slash; of slash by a successful update_rewards (unknown validator)."
 )
 EXPLANATION = LEVEL_TEXT
 TRUSTED = ["rustc MIR construction", "cwmt-facts driver", "vlib (dominators, provenance, call graph)", "cosmwasm-std Decimal / Uint128::mul_floor"]
